@@ -176,5 +176,22 @@ CHECKS["C06"] = {
             "and content-less profile entries (where the effective list keeps a content-less entry the run must fail).",
     "note": _GEN_NOTE,
 }
+CHECKS["C07"] = {
+    "engine": "tlc-spec", "category": "exploration", "design_ref": "6/C07, 3 (Extensions.tla)",
+    "technique": "strict RFC 5280/6960 extension type decoders in TLA+ (Extensions.tla) as the independent decoder; configured content vs decoded content judged by TLC",
+    "text": "All 128 key-usage subsets; ca x pathLen absent/0..255 (quick: 7 values incl. 0); SAN lists of length 0..3 over mail/dns/ip with edge octets; "
+            "policy lists with cps and user-notice qualifiers in every subset of organization/numbers/text (incl. the empty one); AIA lists; EKU lists over "
+            "the six names and custom OIDs; hashed and explicit authority key ids, hashed subject key id; OCSP nocheck; each with critical true/false/omitted. "
+            "TLC requires the value to be exactly one canonical DER value of the RFC type and compares the abstract content.",
+    "note": _GEN_NOTE + "; Extensions.tla self-test: spec/ExtTest.tla (148 vectors, 83 negative)",
+}
+CHECKS["C16"] = {
+    "engine": "tlc-spec", "category": "exploration", "design_ref": "6/C16, 3 (Admission.tla)",
+    "technique": "CommonPKI AdmissionSyntax grammar in TLA+ (Admission.tla) as the independent decoder; configured admission tree vs decoded tree judged by TLC",
+    "text": "One admission x one profession info over 5x5 GeneralName kinds (absent, mail, dns, url, ip) for the two authority fields x 8 naming-authority "
+            "subsets x 16 subsets of the optional profession-info members (12,800 in thorough, a cover of ~300 in quick), plus seeded 1..3 x 1..3 trees. "
+            "TLC decodes extension 1.3.36.8.3.3 with explicit tags and string types enforced and compares every member.",
+    "note": _GEN_NOTE,
+}
 for e in ENGINES:
     e["serves_properties"] = sorted(CHECKS)
